@@ -11,6 +11,7 @@ import (
 	"verif/harness/dates"
 	"verif/harness/document"
 	"verif/harness/nodeheap"
+	"verif/harness/similarity"
 	"verif/harness/warnings"
 )
 
@@ -33,6 +34,8 @@ func main() {
 		err = document.Main(os.Args[2:])
 	case "nodeheap":
 		err = nodeheap.Main(os.Args[2:])
+	case "similarity":
+		err = similarity.Main(os.Args[2:])
 	case "warnings":
 		err = warnings.Main(os.Args[2:])
 	default:
